@@ -143,13 +143,36 @@ def reload_side(ctx):
 def run_timeout(wk, scenario, timeout=2):
     nworkers = 1 if scenario in ("healthy2", "healthy_busy") else 2
     port2 = rp.free_port() if scenario == "healthy2" else None
-    s = rp.Server(wk, workers=nworkers, threads=2 if wk == "gthread" else None,
-                  args=["--timeout", str(timeout), "--graceful-timeout", "2"] +
-                       (["-b", "127.0.0.1:%d" % port2] if port2 else []), name="c11")
+    hup = scenario.startswith("hup_")
+    full_scenario = scenario
+    if hup:
+        # the timeout in force is the one of the LAST reload: the server starts with another one (in the configuration
+        # file), the file is rewritten and the master gets HUP before the scenario proper starts
+        scenario = scenario[4:]
+        if scenario == "healthy":
+            timeout = 4                  # requests of 1.8 s must survive although the server was started with timeout 1
+        before = 1 if scenario == "healthy" else 20
+        s = rp.Server(wk, workers=nworkers, threads=2 if wk == "gthread" else None, config="timeout = %d\n" % before,
+                      args=["--graceful-timeout", "2"], name="c11")
+    else:
+        s = rp.Server(wk, workers=nworkers, threads=2 if wk == "gthread" else None,
+                      args=["--timeout", str(timeout), "--graceful-timeout", "2"] +
+                           (["-b", "127.0.0.1:%d" % port2] if port2 else []), name="c11")
     try:
         s.start()
         initial = s.wait_booted(nworkers)
         time.sleep(0.3)
+        if hup:
+            s.rewrite_config("timeout = %d\n" % timeout)
+            s.signal(signal.SIGHUP)
+            deadline = time.time() + 10
+            while time.time() < deadline:
+                live = [p for p in s.booted() if p in s.workers() and p not in initial]
+                if len(live) >= nworkers and not [p for p in initial if rp.proc_state(p) not in (None, "Z")]:
+                    break
+                time.sleep(0.1)
+            initial = live
+            time.sleep(0.3)
         ev = []
         slack = 2500
         if scenario == "healthy2":
@@ -224,7 +247,7 @@ def run_timeout(wk, scenario, timeout=2):
             ev.append({"e": "healthy", "killed": len(initial) - len(alive)})
             ev.append({"e": "others", "ok": n - fails, "failed": fails})
             tr = {"scenario": scenario, "wk": wk, "timeout_ms": timeout * 1000, "bound_ms": bound, "min_ms": 0, "ev": ev}
-            return tr, {"wk": wk, "scenario": scenario, "requests": n}
+            return tr, {"wk": wk, "scenario": full_scenario, "requests": n}
         # make one worker hang
         victim = None
         if scenario.startswith("stop"):
@@ -292,7 +315,7 @@ def run_timeout(wk, scenario, timeout=2):
         ev.append({"e": "others", "ok": ok, "failed": failed if wk != "sync" or scenario == "stop" or True else 0})
         tr = {"scenario": scenario, "wk": wk, "timeout_ms": timeout * 1000, "bound_ms": bound,
               "min_ms": 0 if scenario.startswith("stop") else timeout * 1000 - 200, "ev": ev}
-        return tr, {"wk": wk, "scenario": scenario, "gone_ms": gone_ms, "ok": ok, "failed": failed, "alive": len(alive)}
+        return tr, {"wk": wk, "scenario": full_scenario, "gone_ms": gone_ms, "ok": ok, "failed": failed, "alive": len(alive)}
     finally:
         try:
             for p in s.workers():
@@ -307,11 +330,12 @@ def run_timeout(wk, scenario, timeout=2):
 
 def timeout_side(ctx):
     plan = [("sync", "hang"), ("gthread", "stop"), ("sync", "healthy"), ("gevent", "healthy"), ("sync", "healthy2"),
-            ("sync", "healthy_busy"), ("sync", "stop_busymaster")] if ctx.quick else \
+            ("sync", "healthy_busy"), ("sync", "stop_busymaster"), ("sync", "hup_hang"), ("sync", "hup_healthy")] if ctx.quick else \
         [(wk, sc) for wk in ("sync", "gthread", "gevent", "eventlet") for sc in ("hang", "stop", "ignore", "healthy")] + \
         [("sync", "healthy2"), ("gthread", "healthy2"), ("sync", "healthy_busy"), ("gthread", "healthy_busy"),
-         ("sync", "stop_busymaster"), ("gevent", "stop_busymaster"), ("sync", "hang_busymaster")]
-    results = _parallel(plan, lambda a, i: run_timeout(a[0], a[1]), par=7)
+         ("sync", "stop_busymaster"), ("gevent", "stop_busymaster"), ("sync", "hang_busymaster"),
+         ("sync", "hup_hang"), ("sync", "hup_healthy"), ("gthread", "hup_stop"), ("gevent", "hup_healthy")]
+    results = _parallel(plan, lambda a, i: run_timeout(a[0], a[1]), par=9)
     traces = [r[0] for r in results]
     metas = [r[1] for r in results]
     verdicts, stats = tlc.validate_batch("TimeoutTrace", "TimeoutTrace.cfg", traces, name="TimeoutTrace_C11")
